@@ -16,7 +16,11 @@ Definition sb_cur_facts : sb_facts := Eval vm_compute in
      sbf_ref_get_checked := f_sb_reference_get_sandboxed;
      sbf_indexer_noinit := f_sb_indexer_ref_noinit && f_sb_ref_callers_noinit;
      sbf_frame_inherit := f_sb_frame_inherit;
-     sbf_userfunc_unsafe := f_sb_userfunc_unsafe && f_sb_function_default_unsafe |}.
+     sbf_userfunc_unsafe := f_sb_userfunc_unsafe && f_sb_function_default_unsafe;
+     sbf_var_import_checked := f_sb_var_import_checked |}.
+
+Definition sb_cur_raw_reads : list (sb_name * sb_name) := Eval vm_compute in
+  map (fun p => (sb_enc (fst p), sb_enc (snd p))) f_sb_raw_reads.
 
 Definition sb_cur_body_scan : list (sb_name * (bool * bool)) := Eval vm_compute in
   map (fun p => (sb_enc (fst p), snd p)) f_sb_body_scan.
@@ -33,18 +37,32 @@ Definition sb_pinned_facts : sb_facts :=
      sbf_hidden := sbf_hidden sb_cur_facts; sbf_hidden_globals := sbf_hidden_globals sb_cur_facts;
      sbf_call_guard := sbf_call_guard sb_cur_facts; sbf_getfield_checked := sbf_getfield_checked sb_cur_facts;
      sbf_ref_get_checked := sbf_ref_get_checked sb_cur_facts; sbf_indexer_noinit := sbf_indexer_noinit sb_cur_facts;
-     sbf_frame_inherit := sbf_frame_inherit sb_cur_facts; sbf_userfunc_unsafe := sbf_userfunc_unsafe sb_cur_facts |}.
+     sbf_frame_inherit := sbf_frame_inherit sb_cur_facts; sbf_userfunc_unsafe := sbf_userfunc_unsafe sb_cur_facts;
+     sbf_var_import_checked := sbf_var_import_checked sb_cur_facts |}.
 
 (* the guard table is exactly the expected one: these and only these constructors refuse to run *)
 Definition sb_expected_guarded : list sb_name :=
   [sb_n_Apply; sb_n_For; sb_n_ImportDefaultTemplates; sb_n_Import; sb_n_Include; sb_n_Library; sb_n_Object;
    sb_n_Set; sb_n_SetConst; sb_n_While].
 
-(* the frames the product creates for user supplied code: the filter frame and both event frames are
-   sandboxed unconditionally, the console frames take the request parameter *)
+(* Frame STACK discipline at the places where the product evaluates user supplied code.  A frame constructed later
+   lies above on the thread's frame stack, and callee frames (Function::Invoke, NamespaceExpression) inherit Sandboxed
+   from the stack TOP.  Per site: the LAST frame the function constructs is the user's sandboxed one, and the helpers it
+   calls while that frame is alive (FilteredAddTarget, FilterUtility::EvaluateFilter) construct none - so no unsandboxed
+   frame is above the user's frame while user code runs. *)
+Definition sb_decls_of (fn : string) : list (string * string) :=
+  map snd (filter (fun p => String.eqb (fst p) fn) f_sb_frame_decls).
+Definition sb_last_is (fn want : string) : bool :=
+  match rev (sb_decls_of fn) with (_, a) :: _ => String.eqb a want | [] => false end.
+Definition sb_no_decl (fn : string) : bool := match sb_decls_of fn with [] => true | _ => false end.
+Definition sb_cur_filter_top : bool := Eval vm_compute in
+  (sb_last_is "FilterUtility::GetFilterTargets" "true" && sb_no_decl "FilteredAddTarget" &&
+   sb_no_decl "FilterUtility::EvaluateFilter")%string.
+Definition sb_cur_event_top : bool := Eval vm_compute in
+  (sb_last_is "EventQueue::ProcessEvent" "true" && sb_no_decl "FilterUtility::EvaluateFilter")%string.
+Definition sb_cur_inbox_top : bool := Eval vm_compute in
+  (sb_last_is "EventsFilter::Push" "true" && sb_no_decl "FilterUtility::EvaluateFilter")%string.
+Definition sb_cur_console_top : bool := Eval vm_compute in
+  (sb_last_is "ConsoleHandler::ExecuteScriptHelper" "sandboxed")%string.
 Definition sb_frames_expected : bool :=
-  forallb (fun p => let '(site, want) := p in
-                    match find (fun q => String.eqb (fst q) site) f_sb_frames with
-                    | Some q => String.eqb (snd q) want | None => false end)
-    [("filterutility:2", "true"); ("eventqueue:1", "true"); ("eventqueue:2", "true");
-     ("consolehandler:1", "sandboxed"); ("consolehandler:2", "sandboxed")]%string.
+  sb_cur_filter_top && sb_cur_event_top && sb_cur_inbox_top && sb_cur_console_top.
